@@ -10,7 +10,7 @@ import (
 
 func init() {
 	register("C15", propMeta{
-		Explanation: "E-GUARD + E-LOCK x E-CHAN + E-PANIC on client/lib. O-1 capacity gate: in Collect the rendezvous (Tongue.Catch) is reachable only through the false edge of count >= max, with collectLock held continuously from the count to the insertion into activePeers, which has no other inserter; the hand-over channel's capacity is the maximum. O-2: Pop returns a peer only through the false edge of Closed() on that very peer. O-3 close-once: every close(ch) in client/lib is inside a sync.Once.Do closure or is a verified table row; O-3b no send can race with a close: for every channel that is both closed and sent on, one mutex is held at the close and at every send. O-4: while collectLock is held every channel operation is polling or is a select with a case on the melt channel (End needs the lock). O-5 shutdown reaches every loop: connectLoop blocks only in a select with a Melted() case that returns; Collect tests melt first under the lock; End closes melt before taking the lock and then closes every peer it holds; SnowflakeConn.Close reaches End, the packet conn, the session and the stream on all paths; the staleness loop selects on the peer's closed channel. O-6 a failed attempt cannot terminate the process: from Collect no reachable repository code contains an undischarged panic/Fatal/Exit/assertion, pointer results are used only behind their err == nil edge, and a field that a failing method may leave nil is not dereferenced before that method's error is tested. Each clause is a necessary condition: e.g. an unconditional send under collectLock makes Close hang once spare peers went stale. Added after the second seeding round: O-6d every construction of an event type whose String() calls Error() on a field without a nil test supplies a value that is non-nil at the construction site (fresh error, behind its != nil edge, or the argument of an error callback). The melt test and the hand-over select may live in helpers of Collect (boolean-helper summaries, entry locksets). Added after the third seeding round: the closed mark precedes the teardown steps in WebRTCPeer.Close; the rendezvous transport keeps ResponseHeaderTimeout (borrowed from C01); a vanished Count() use in the capacity test is a violation.",
+		Explanation: "E-GUARD + E-LOCK x E-CHAN + E-PANIC on client/lib. O-1 capacity gate: in Collect the rendezvous (Tongue.Catch) is reachable only through the false edge of count >= max, with collectLock held continuously from the count to the insertion into activePeers, which has no other inserter; the hand-over channel's capacity is the maximum. O-2: Pop returns a peer only through the false edge of Closed() on that very peer. O-3 close-once: every close(ch) in client/lib is inside a sync.Once.Do closure or is a verified table row; O-3b no send can race with a close: for every channel that is both closed and sent on, one mutex is held at the close and at every send. O-4: while collectLock is held every channel operation is polling or is a select with a case on the melt channel (End needs the lock). O-5 shutdown reaches every loop: connectLoop blocks only in a select with a Melted() case that returns; Collect tests melt first under the lock; End closes melt before taking the lock and then closes every peer it holds; SnowflakeConn.Close reaches End, the packet conn, the session and the stream on all paths; the staleness loop selects on the peer's closed channel. O-6 a failed attempt cannot terminate the process: from Collect no reachable repository code contains an undischarged panic/Fatal/Exit/assertion, pointer results are used only behind their err == nil edge, and a field that a failing method may leave nil is not dereferenced before that method's error is tested. Each clause is a necessary condition: e.g. an unconditional send under collectLock makes Close hang once spare peers went stale. Added after the second seeding round: O-6d every construction of an event type whose String() calls Error() on a field without a nil test supplies a value that is non-nil at the construction site (fresh error, behind its != nil edge, or the argument of an error callback). The melt test and the hand-over select may live in helpers of Collect (boolean-helper summaries, entry locksets). Added after the third seeding round: the closed mark precedes the teardown steps in WebRTCPeer.Close; the rendezvous transport keeps ResponseHeaderTimeout (borrowed from C01); a vanished Count() use in the capacity test is a violation. Added after the fourth seeding round: every peer caught by Collect is inserted into activePeers or closed on every path; O-2b the data channel's OnClose callback reaches WebRTCPeer.Close; a close inside a function whose only call site is a Once.Do body counts as close-once.",
 		NotDecided:  "bounded time of Close, pion callback behaviour after Close, the TOCTOU between Closed() in Pop and first use, panics inside third-party code.",
 		Assumptions: []string{"pion fires OnOpen at most once per data channel (table row)", "crypto/rand failure is not a rendezvous failure (two panic rows)", "lock identity is (type, field)"},
 	}, runC15)
@@ -74,6 +74,32 @@ func runC15(c *Ctx) {
 		c.check(held && nLock == 1, rule1, "Collect: count, rendezvous and insertion in one collectLock critical section", p.Pos(collect.Pos()), "", "the count check and the insertion into activePeers are not one critical section: two collectors can both pass the gate")
 		// PushBack's argument is the caught peer
 		c.check(isResultOf(pushBack.Common().Args[1], 0, "(client/lib.Tongue).Catch"), rule1, "Collect inserts the peer it caught", p.instrPos(pushBack), "", "the value inserted into activePeers is not the result of Catch")
+		// every caught peer ends up tracked (End closes what activePeers holds) or closed: a peer that is neither
+		// stays open after Close has returned
+		if cc := catch; cc != nil {
+			okE := errNilEdges(collect, cc, 1)
+			isKeepOrClose := func(in ssa.Instruction) bool {
+				ci, ok := in.(ssa.CallInstruction)
+				if !ok {
+					return false
+				}
+				switch calleeName(ci) {
+				case "(*container/list.List).PushBack", "(*container/list.List).PushFront":
+					return len(ci.Common().Args) > 1 && isResultOfCall(ci.Common().Args[1], cc, 0)
+				case "(*client/lib.WebRTCPeer).Close":
+					return isResultOfCall(ci.Common().Args[0], cc, 0)
+				}
+				return false
+			}
+			good := len(okE) > 0
+			var wp []*ssa.BasicBlock
+			for _, e := range okE {
+				if pth := escapesWithout(e.To(), isKeepOrClose); pth != nil {
+					good, wp = false, pth
+				}
+			}
+			c.check(good, rule1, "Collect tracks or closes every peer it caught", p.instrPos(cc), "on every path from the successful rendezvous", "a caught peer can leave Collect neither in activePeers nor closed (for example on the melt branch): it outlives Close", p.pathString(wp)...)
+		}
 	}
 	// who-may-insert
 	nIns := 0
@@ -149,6 +175,47 @@ func runC15(c *Ctx) {
 		}
 	}
 
+	// a peer whose data channel the other side closed marks itself closed: the OnClose callback of the data
+	// channel reaches WebRTCPeer.Close (otherwise Closed() stays false and Pop hands the dead peer to the data path)
+	{
+		ruleC := "O-2b a remotely closed peer reports Closed()"
+		prep := p.Fn("client/lib", "(*WebRTCPeer).preparePeerConnection")
+		closeFn := p.Fn("client/lib", "(*WebRTCPeer).Close")
+		if prep == nil || closeFn == nil {
+			c.undecided(ruleC, "WebRTCPeer.preparePeerConnection/Close", "-", "anchor does not resolve")
+		} else {
+			n := 0
+			for _, d := range deepCalls(prep, 2, "(*github.com/pion/webrtc/v3.DataChannel).OnClose") {
+				ci, ok := d.In.(ssa.CallInstruction)
+				if !ok {
+					continue
+				}
+				n++
+				var cb *ssa.Function
+				switch v := strip(ci.Common().Args[1]).(type) {
+				case *ssa.MakeClosure:
+					cb, _ = v.Fn.(*ssa.Function)
+				case *ssa.Function:
+					cb = v
+				}
+				reaches := false
+				if cb != nil {
+					for _, fn := range deepFns(cb, 3) {
+						for _, c2 := range callsIn(fn) {
+							if staticCallee(c2) == closeFn {
+								reaches = true
+							}
+						}
+					}
+				}
+				c.check(reaches, ruleC, "the data channel's OnClose callback closes the peer", p.instrPos(ci), "", "when the remote side closes the data channel the peer is not closed: Closed() keeps reporting false for a peer whose transport is gone, and Pop returns it")
+			}
+			if n == 0 {
+				c.viol(ruleC, "the data channel's OnClose callback closes the peer", p.Pos(prep.Pos()), "no OnClose callback is registered on the data channel: a remote close goes unnoticed")
+			}
+		}
+	}
+
 	// ---------- O-3 close-once ----------
 	rule3 := "O-3 close-once"
 	closeRows := map[string]string{
@@ -176,6 +243,8 @@ func runC15(c *Ctx) {
 			key := fmt.Sprintf("%s close %s", p.FnName(fn), op.Class)
 			if onceClosure(p, fn) {
 				c.ok(rule3, key, p.instrPos(op.Instr), "inside a sync.Once.Do closure")
+			} else if runsOnlyUnderOnce(p, fn, 3) {
+				c.ok(rule3, key, p.instrPos(op.Instr), "in a function whose only call site lies inside a sync.Once.Do closure")
 			} else if why, ok := closeRows[key]; ok {
 				c.ok(rule3, key, p.instrPos(op.Instr), "table row: "+why)
 			} else {
@@ -316,6 +385,23 @@ func onceClosure(p *Prog, fn *ssa.Function) bool {
 		}
 	}
 	return true
+}
+
+// runsOnlyUnderOnce: fn is a sync.Once.Do closure, or an unexported function
+// that is never used as a value and whose single call site lies in such a
+// function (a cleanup helper called from the once body).
+func runsOnlyUnderOnce(p *Prog, fn *ssa.Function, depth int) bool {
+	if onceClosure(p, fn) {
+		return true
+	}
+	if depth <= 0 {
+		return false
+	}
+	site := uniqueSite(fn)
+	if site == nil {
+		return false
+	}
+	return runsOnlyUnderOnce(p, site.Parent(), depth-1)
 }
 
 func selectHasCase(p *Prog, sel *ssa.Select, class string) bool {
